@@ -15,7 +15,8 @@ from vlib import ToolError, log
 EXT = {"ts": ".ts", "dts": ".d.ts", "tsx": ".tsx"}
 # nested directories, the same base name everywhere (generated identifiers are built from the paths)
 # (a/b/t.ts and a_b/t.ts differ only in a separator that generated identifiers replace by "_")
-FPATH = {"entry": "entry", "m1": "a/b/t", "m2": "a/c/t", "m3": "c/t", "m4": "a_b/t", "hop": "hop"}
+# (a directory name that starts with a digit: the path becomes part of generated identifiers)
+FPATH = {"entry": "entry", "m1": "a/b/t", "m2": "a/3c/t", "m3": "3c/t", "m4": "a_b/t", "hop": "hop"}
 
 
 def spec_from(frm, to):
@@ -145,7 +146,7 @@ def render(L):
 
     for d in ["B", "A", "G", "k", "E", "E2", "E3"]:
         files[place[d]].append(decl(d))
-    root = f'type T = {{ a: {ref("T", "A")}; b: {ref("T", "B")}; k: typeof {ref("T", "k")}; g: {ref("T", "G")}<{ref("T", "B")}>; e: {ref("T", "E")}.P; f: {ref("T", "E2")}.P; g3: {ref("T", "E3")}.P; ev: typeof {ref("T", "E")}.Q }};'
+    root = f'type T = {{ a: {ref("T", "A")}; b: {ref("T", "B")}; k: typeof {ref("T", "k")}; g: {ref("T", "G")}<{ref("T", "B")}>; e: {ref("T", "E")}.P; f: {ref("T", "E2")}.P; g3: {ref("T", "E3")}.P; ev: typeof {ref("T", "E")}.Q; ee?: {ref("T", "E")}; eo?: {ref("T", "E")}[]; ff?: {ref("T", "E2")}; fo?: {ref("T", "E2")}[] }};'
     files["entry"].append(root)
     files["entry"].append("parse.buildParsers<{ T: T }>();")
     if exp["k"] == "defaultExpr" and place["k"] != "entry":
@@ -169,39 +170,18 @@ def broken_name(L):
     return (n + "X" if L["exp"][d] == "renamed" and L["place"][d] != "entry" else n) + "Missing"
 
 
-def run(prop, tier):
-    t0 = time.time()
-    vlib.build()
-    tag = f"{prop}-{tier}"
-    vlib.clear_replays(prop, tier)
-    d = os.path.join(vlib.WORK, tag)
-    os.makedirs(d, exist_ok=True)
+def layouts_to_depth(d, depth):
+    """all layouts of Modules.tla within `depth` changes of the single-file program (TLC, breadth first)"""
     cfg = os.path.join(d, "MC_Modules.cfg")
-    depth = 3 if tier == "quick" else 4
     vlib.write_cfg(cfg, spec="Spec", constants={"MaxSteps": depth}, invariants=["AllResolve", "EmitInv"])
     gr = vlib.run_tlc(cfg, os.path.join(vlib.VERIF, "spec/mc/MC_Modules.tla"), workers=12, heap="8g", tag="modules", timeout=3000)
     if gr["violated"] or not gr["ok"]:
         raise ToolError("Modules.tla failed:\n" + gr["tail"])
-    layouts = vlib.tagged_lines(gr["lines"], "LAYOUT")
-    if tier == "thorough":
-        cfg2 = os.path.join(d, "MC_Modules_sim.cfg")
-        vlib.write_cfg(cfg2, spec="Spec", constants={"MaxSteps": 9}, invariants=["AllResolve", "EmitInv"])
-        sr = vlib.run_tlc(cfg2, os.path.join(vlib.VERIF, "spec/mc/MC_Modules.tla"), workers=1, heap="4g", tag="modules-sim",
-                          extra=["-simulate", "num=1500", "-depth", "10", "-seed", str(vlib.seed())], timeout=3000)
-        layouts += vlib.tagged_lines(sr["lines"], "LAYOUT")
-    # dedupe layouts that render identically
-    projects, seen = [], set()
-    for L in layouts:
-        files = render(L)
-        key = json.dumps(files)
-        if key in seen:
-            continue
-        seen.add(key)
-        projects.append({"layout": L, "files": files})
-    base = next(p for p in projects if p["layout"]["steps"] == 0)
-    projects.remove(base)
-    projects.insert(0, base)
-    log(f"[C09] {len(layouts)} layouts, {len(projects)} distinct projects")
+    return vlib.tagged_lines(gr["lines"], "LAYOUT"), gr
+
+
+def layout_probes():
+    """values for the root type T of the Modules.tla program: the common pool, members and near members"""
     common = __import__("p_hash").pool()
     probes = common + [
         {"k": "obj", "c": "plain", "ps": [{"key": "a", "v": {"k": "obj", "c": "plain", "ps": [{"key": "a", "v": {"k": "str", "s": "s"}}]}},
@@ -229,6 +209,45 @@ def run(prop, tier):
     third = copy.deepcopy(probes[len(common)])
     third["ps"][-3:] = [{"key": "e", "v": S("p")}, {"key": "f", "v": S("gp")}, {"key": "g3", "v": S("fp")}]
     probes += [swapped, same, other, third]
+    # the enums as whole types (optional properties ee / eo of E, ff / fo of E2): members of each, and each other's members
+    base = probes[len(common)]
+    for extra in ([("ee", S("q")), ("ff", S("r"))], [("ee", S("r"))], [("ff", S("q"))],
+                  [("eo", {"k": "arr", "es": [S("p"), S("q")]}), ("fo", {"k": "arr", "es": [S("fp")]})], [("fo", {"k": "arr", "es": [S("p")]})]):
+        q = copy.deepcopy(base)
+        q["ps"] += [{"key": k, "v": v} for k, v in extra]
+        probes.append(q)
+    return probes
+
+
+def run(prop, tier):
+    t0 = time.time()
+    vlib.build()
+    tag = f"{prop}-{tier}"
+    vlib.clear_replays(prop, tier)
+    d = os.path.join(vlib.WORK, tag)
+    os.makedirs(d, exist_ok=True)
+    depth = 3 if tier == "quick" else 4
+    layouts, gr = layouts_to_depth(d, depth)
+    if tier == "thorough":
+        cfg2 = os.path.join(d, "MC_Modules_sim.cfg")
+        vlib.write_cfg(cfg2, spec="Spec", constants={"MaxSteps": 9}, invariants=["AllResolve", "EmitInv"])
+        sr = vlib.run_tlc(cfg2, os.path.join(vlib.VERIF, "spec/mc/MC_Modules.tla"), workers=1, heap="4g", tag="modules-sim",
+                          extra=["-simulate", "num=1500", "-depth", "10", "-seed", str(vlib.seed())], timeout=3000)
+        layouts += vlib.tagged_lines(sr["lines"], "LAYOUT")
+    # dedupe layouts that render identically
+    projects, seen = [], set()
+    for L in layouts:
+        files = render(L)
+        key = json.dumps(files)
+        if key in seen:
+            continue
+        seen.add(key)
+        projects.append({"layout": L, "files": files})
+    base = next(p for p in projects if p["layout"]["steps"] == 0)
+    projects.remove(base)
+    projects.insert(0, base)
+    log(f"[C09] {len(layouts)} layouts, {len(projects)} distinct projects")
+    probes = layout_probes()
     reqs = [vlib.compile_req(i, p["files"]) for i, p in enumerate(projects)]
     comp = vlib.compile_all(reqs)
     jobs = [{"id": i, "code": r["code"], "root": "T", "probes": probes, "ops": ["validate", "hash"]} for i, r in enumerate(comp) if r["outcome"] == "code"]
